@@ -81,6 +81,11 @@ def check(run):
             pairs.append((T.text(r['min'], fields=[]), T.text(pr2['min'], fields=[]), how))
             if rng.random() < 0.2:
                 pairs.append((T.text(r['min'], fields=[]), T.text(r['full'], fields=[]), 'same'))
+        # trees that differ only in the value an inner node carries: the field a dot selects
+        for ctx in ('%s', 'v0 + %s', 'arr[%s]', 'fn1(%s)', '%s == v1', 'b0 ? %s : v2', '- %s', 'fn2(v0, %s)', '(%s) * 2'):
+            for a, b in (('s.f0', 's.f1'), ('s2.f1', 's2.f0'), ('sa[1].f0', 'sa[1].f1'), ('s.t.g0', 's2.t.g0'), ('s.f0', 's.t.g0'), ('sa[v0].f1', 'sa[v0].f0')):
+                pairs.append((ctx % a, ctx % b, 'dot-field'))
+                pairs.append((ctx % a, ctx % a, 'same'))
         nsh = 16
         shards = [vlib.Job() for _ in range(nsh)]
         for i, j in enumerate(shards):
@@ -174,7 +179,7 @@ def check(run):
             run.tie_broken('ExprLaws model (extracted) vs implementation', mism[:6])
         run.cov.update(evaluations=nlaws + npairs, distinct_nontrivial=len(set(texts)) + len(set(pairs)), traces_validated_against_impl=len(model_in),
                        rule='LAWS: every third (context x child) triple and seeded random typed trees, plus %d query forms (n-ary LIST / SIMULATE nodes), each through clone_deeper / mutation / subst of every occurring symbol / '
-                            'child walk under ASan+UBSan; PAIR: each tree against a single-node perturbation (operator, atom, operand order) and against its fully parenthesised spelling; '
+                            'child walk under ASan+UBSan; PAIR: each tree against a single-node perturbation (operator, atom, operand order), against its fully parenthesised spelling, and pairs that differ only in the field a dot selects, in nine contexts; '
                             'the extracted Coq equal/subst/clone run on the same dumped trees and must give the implementation\'s answers' % len(QUERIES),
                        samples=samples, laws_cases=nlaws, query_trees=nq, equal_pairs=npairs, model_cases=len(model_in))
     run.cov['trusted_base'] += ['hand model ExprLaws.v of clone_deeper/subst/equal (tied by running the extracted functions on the implementation\'s dumped trees)',
